@@ -156,6 +156,7 @@ class FsRun:
         p.set(M["ib"].InotifyBuffer, "delay", self.case.get("delay", 0.5))
         os.makedirs(self.top + "/root")
         os.makedirs(self.top + "/out")
+        os.makedirs(self.top + "/linktarget")  # a directory outside the tree that "dirlink" specials point to
         if self.w.get("spelling") in ("rel", "reldot"):
             self.cwd0 = os.getcwd()
             os.chdir(self.top)
@@ -353,6 +354,9 @@ class FsRun:
             Y()
             if op[2] == "fifo":
                 os.mkfifo(r(op[1]))
+            elif op[2] == "dirlink":
+                # a symbolic link to a directory: the kernel reports it without IN_ISDIR, os.walk lists it among the directories
+                os.symlink(self.topb + b"/linktarget", r(op[1]))
             else:
                 os.symlink(b"/nonexistent/wdsim-dangling-target", r(op[1]))
         elif k == "write":
@@ -425,7 +429,10 @@ class FsRun:
                 if kind == "d":
                     os.mkdir(src + b"/" + enc(rel))
                 elif kind == "s":
-                    os.mkfifo(src + b"/" + enc(rel))
+                    if self.opi % 2:
+                        os.symlink(self.topb + b"/linktarget", src + b"/" + enc(rel))
+                    else:
+                        os.mkfifo(src + b"/" + enc(rel))
                 else:
                     with open(src + b"/" + enc(rel), "w"):
                         pass
